@@ -142,6 +142,8 @@ func checkExpr(t *rapid.T, rec *ev.Rec, e *node, src string, rows [][]*val) {
 
 	fns := newExprFns()
 	fns.fns[e] = whole
+	emptyOr := orWithEmptyRange(src)
+	poolMerge := constPoolMerge(e)
 	for _, row := range rows {
 		var canon strings.Builder
 		canon.WriteString(src)
@@ -200,6 +202,10 @@ func checkExpr(t *rapid.T, rec *ev.Rec, e *node, src string, rows [][]*val) {
 				return ok
 			}
 
+			if known(poolMerge, "compiler-constant-pool-lossy-merge", "") {
+				return // the language function is not the expression
+			}
+
 			// ---- extend form: exact (value path, no reordering)
 			switch {
 			case known(w.subAsAdd, "subtraction-as-add-negation", " (extend form)"):
@@ -223,7 +229,7 @@ func checkExpr(t *rapid.T, rec *ev.Rec, e *node, src string, rows [][]*val) {
 				known(ww.divFirst, "const-numerator-division", " (where form)"),
 				known(ww.lossy, "int64-dnum-lossy-compare", " (where form)"),
 				known(ww.negPrefix, "negative-number-packed-prefix-order", " (where form)"),
-				known(orWithEmptyRange(e), "or-with-empty-range", " (where form)"):
+				known(emptyOr, "or-with-empty-range", " (where form)"):
 				return
 			}
 			judgeWhere(t, rec, termFns, args, wo, info)
@@ -316,89 +322,4 @@ func judgeWhere(t *rapid.T, rec *ev.Rec, termFns []langFn, args []core.Value, wo
 	default:
 		t.Fatalf("where: %d rows from a one row table%s", wo.n, info())
 	}
-}
-
-// orWithEmptyRange: known finding or-with-empty-range (dbms/query/where2.go
-// orSpan): an `or` conjunct one of whose alternatives is `col < ""`
-// (or `"" > col`) or a lower/upper bound pair on one column that is empty.
-func orWithEmptyRange(e *node) bool {
-	for _, tm := range e.andTerms() {
-		if tm.op != "or" {
-			continue
-		}
-		for _, alt := range tm.orAlts() {
-			if emptyRangeAlt(alt) {
-				return true
-			}
-		}
-	}
-	return false
-}
-
-func colConst(n *node) (col string, op string, c *val, ok bool) {
-	if !isCmpOp(n.op) {
-		return
-	}
-	l, r := n.kids[0], n.kids[1]
-	if l.op == "col" && r.op == "const" {
-		return l.col, n.op, r.c, true
-	}
-	if l.op == "const" && r.op == "col" {
-		rev := map[string]string{"<": ">", "<=": ">=", ">": "<", ">=": "<=", "is": "is", "isnt": "isnt"}
-		return r.col, rev[n.op], l.c, true
-	}
-	return
-}
-
-func emptyRangeAlt(alt *node) bool {
-	if _, op, c, ok := colConst(alt); ok {
-		return op == "<" && c.packed == ""
-	}
-	if alt.op != "and" {
-		return false
-	}
-	type bound struct {
-		lo, hi       *val
-		loInc, hiInc bool
-	}
-	bounds := map[string]*bound{}
-	for _, k := range alt.andTerms() {
-		col, op, c, ok := colConst(k)
-		if !ok {
-			continue
-		}
-		if op == "<" && c.packed == "" {
-			return true
-		}
-		b := bounds[col]
-		if b == nil {
-			b = &bound{}
-			bounds[col] = b
-		}
-		switch op {
-		case ">", ">=":
-			if b.lo == nil || c.packed > b.lo.packed {
-				b.lo, b.loInc = c, op == ">="
-			}
-		case "<", "<=":
-			if b.hi == nil || c.packed < b.hi.packed {
-				b.hi, b.hiInc = c, op == "<="
-			}
-		case "is":
-			if b.lo == nil || c.packed > b.lo.packed {
-				b.lo, b.loInc = c, true
-			}
-			if b.hi == nil || c.packed < b.hi.packed {
-				b.hi, b.hiInc = c, true
-			}
-		}
-	}
-	for _, b := range bounds {
-		if b.lo != nil && b.hi != nil {
-			if b.lo.packed > b.hi.packed || (b.lo.packed == b.hi.packed && !(b.loInc && b.hiInc)) {
-				return true
-			}
-		}
-	}
-	return false
 }
